@@ -3,6 +3,7 @@ import ast
 
 from ..astutil import U, dotted, walk_local, is_self_attr, call_name, short, enum_member, get_class, methods, classes
 from ..cfg import CFG
+from ..dataflow import ReachingDefs, node_of_expr
 from ..guards import handler_catches
 from ..engmodel import ENGINE, CRYPTO, POLICY
 from ..engai import EngineAI, UNK
@@ -50,6 +51,102 @@ def kmip_errors(src):
         out[name] = reason
     return out
 
+
+
+def string_leaves(hg, hrd, node, expr, depth=0, seen=None):
+    """Classify the values an identifier expression can take: list of (verdict, text) with verdict in ok / bad / unknown."""
+    seen = seen if seen is not None else set()
+    if isinstance(expr, ast.Constant):
+        return [('ok' if expr.value is None or isinstance(expr.value, str) else 'bad', U(expr))]
+    if isinstance(expr, ast.JoinedStr):
+        return [('ok', U(expr))]
+    if isinstance(expr, ast.Call):
+        cn = call_name(expr) or ''
+        if cn == 'str' or (isinstance(expr.func, ast.Attribute) and expr.func.attr in ('format', 'join', 'decode')):
+            return [('ok', U(expr))]
+        if cn.endswith('UniqueIdentifier') and len(expr.args) == 1:
+            return string_leaves(hg, hrd, node, expr.args[0], depth, seen)
+        return [('unknown', U(expr))]
+    if isinstance(expr, ast.ListComp):
+        # element expressions are evaluated inside the comprehension scope: only direct forms are classified
+        e = expr.elt
+        if isinstance(e, ast.Call) and call_name(e) == 'str':
+            return [('ok', U(expr))]
+        if isinstance(e, ast.Attribute) and e.attr == 'unique_identifier':
+            return [('bad', U(expr))]
+        return [('unknown', U(expr))]
+    if isinstance(expr, (ast.List, ast.Tuple)):
+        out = []
+        for e in expr.elts:
+            out += string_leaves(hg, hrd, node, e, depth, seen)
+        return out or [('ok', '[]')]
+    if isinstance(expr, ast.Attribute):
+        if is_self_attr(expr, '_id_placeholder'):
+            return [('ok', U(expr))]          # its stores are obligations of their own
+        root = expr
+        while isinstance(root, ast.Attribute):
+            root = root.value
+        if isinstance(root, ast.Name) and root.id == 'payload':
+            return [('ok', U(expr))]          # decoded TextString field (setter type-checks str)
+        if expr.attr == 'unique_identifier':
+            return [('bad', U(expr))]         # pie object primary key: an Integer column
+        return [('unknown', U(expr))]
+    if isinstance(expr, ast.Name):
+        if (expr.id, node.id) in seen or depth > 6:
+            return []
+        seen.add((expr.id, node.id))
+        out = []
+        for _var, val, dn in hrd.reaching(node, expr.id):
+            if not isinstance(val, ast.AST) or dn is None:
+                out.append(('unknown', '%s (parameter or opaque definition)' % expr.id))
+            else:
+                out += string_leaves(hg, hrd, dn, val, depth + 1, seen)
+        return out or [('unknown', '%s (no definition)' % expr.id)]
+    if isinstance(expr, ast.IfExp):
+        return string_leaves(hg, hrd, node, expr.body, depth, seen) + string_leaves(hg, hrd, node, expr.orelse, depth, seen)
+    if isinstance(expr, ast.BoolOp):
+        out = []
+        for v in expr.values:
+            out += string_leaves(hg, hrd, node, v, depth, seen)
+        return out
+    return [('unknown', U(expr))]
+
+
+def check_identifier_strings(ctx, m):
+    ctx.rule('C13.R5', 'identifiers kept in the ID placeholder or handed to response payload constructors (which type-check for str and raise TypeError -> General Failure) are strings on every path: str(...) of the object id, a decoded payload field, or the placeholder itself')
+    n_sites = 0
+    unknown = []
+    for meth, fn in sorted(m.methods.items()):
+        sites = []
+        for n in walk_local(fn):
+            if isinstance(n, ast.Assign) and len(n.targets) == 1 and is_self_attr(n.targets[0], '_id_placeholder'):
+                sites.append((n, n.value, 'placeholder-type'))
+            if isinstance(n, ast.Call) and (call_name(n) or '').startswith('payloads.') and (call_name(n) or '').endswith('ResponsePayload'):
+                for kw in n.keywords:
+                    if kw.arg and (kw.arg == 'unique_identifier' or kw.arg == 'unique_identifiers' or kw.arg.endswith('_unique_identifier')):
+                        sites.append((n, kw.value, '%s(%s=)' % (call_name(n), kw.arg)))
+        if not sites:
+            continue
+        hg = CFG(fn)
+        hrd = ReachingDefs(hg)
+        for stmt, val, what in sites:
+            n_sites += 1
+            node = node_of_expr(hg, stmt)
+            if node is None:
+                raise AnalysisError('C13.R5: no CFG node for %s in %s' % (U(stmt)[:60], meth))
+            leaves = string_leaves(hg, hrd, node, val)
+            bad = sorted(set(t for v, t in leaves if v == 'bad'))
+            unk = sorted(set(t for v, t in leaves if v == 'unknown'))
+            site = m.site(stmt, fn)
+            if bad:
+                ctx.fail('C13.R5', 'KmipEngine.%s|%s' % (meth, what), site, 'the identifier can be a non-string (%s): a later payload constructor or attribute type check raises TypeError, which is answered with General Failure' % ', '.join(bad))
+            elif unk:
+                unknown.append('%s %s: %s' % (site, what, unk))
+            else:
+                ctx.ok('C13.R5', site, '%s is a string on every path (%d leaves)' % (what, len(leaves)))
+    ctx.count('identifier_string_sites', n_sites, 15)
+    if unknown:
+        raise AnalysisError('C13.R5 cannot classify identifier values: %s' % unknown[:3])
 
 
 def check_optional_deref(ctx, m):
@@ -373,6 +470,7 @@ def run(ctx):
               'every tag the by-tag factory decodes has a name (ValueError infeasible for decoded attributes)',
               'decodable attribute tags without a name entry (convert_attribute_tag_to_name raises ValueError -> General Failure): %s' % missing)
     check_optional_deref(ctx, m)
+    check_identifier_strings(ctx, m)
     ctx.not_decided += ['implicit exceptions of third-party code for particular values (cryptography rejecting a nonce length, unpadding failure with a wrong key)']
     ctx.assumptions += ['requests reach the engine only through the decoders (wire-decoded provenance): field types are those the decoders construct',
                         'TypeError raises in pie validate() are infeasible for decoder-typed values; ValueError raises depend on values and are feasible']
